@@ -348,7 +348,7 @@ fn floats<T: Tier + Dom<M = Sh>>(rep: &mut Report) {
     if T::NAME == "D" {
         rads.extend([1e6, -1e7, 1e9]);
     }
-    let jmax = rep.pick(20, 100);
+    let jmax = rep.pick(20, 200);
     for j in 1..=jmax {
         rads.push(0.37 * j as f64 * 20.0 / jmax as f64);
         rads.push(-0.37 * j as f64 * 20.0 / jmax as f64);
